@@ -45,12 +45,13 @@ Verdict runC13(const Case &cs) {
   std::vector<Kept> kept;
   g_tree.reset();
   yaep_verif.rec_limit = REC_LIMIT;
+  bool cutShort = false;
   for (auto &codes : cs.inputs) {
     ParseOpts po; po.keep_tracking = true; po.free_tree = false; po.den_limit = 2000;
     Outcome o = runParse(*b, codes, cf, po);
     v.parses++;
     std::string where = " [" + cf.str() + "] got " + o.str();
-    if (o.exploded()) { v.labels.insert(o.explosionLabel()); continue; }
+    if (o.exploded()) { v.labels.insert(o.explosionLabel()); cutShort = true; continue; } // the unfinished tree of a parse cut short by the harness belongs to nobody
     if (o.rc != 0) { v.fail("yaep_parse returned " + std::to_string(o.rc) + where); return v; }
     if (o.t_bad_free) { v.fail("parse_free received a block that parse_alloc did not return during this parse, or received it twice: " + o.t_bad + where); return v; }
     if (cf.freemode == 1 && (g_tree.n_free || g_tree.n_free_null)) { v.fail("parse_free is NULL but something was released" + where); return v; }
@@ -107,6 +108,7 @@ Verdict runC13(const Case &cs) {
       if (g_tree.liveOf(k.epoch) != 0) { v.fail("yaep_free_tree left " + std::to_string(g_tree.liveOf(k.epoch)) + " parse_alloc blocks of the parse unreleased"); return v; }
     }
   }
+  if (cutShort) return v;
   if (cf.freemode == 2 && g_lib.live_blocks != base) { v.fail("default allocator: " + std::to_string(g_lib.live_blocks - base) + " library blocks remain after yaep_free_grammar and yaep_free_tree"); return v; }
   if (cf.freemode == 0 && g_lib.live_blocks != base) { v.fail(std::to_string(g_lib.live_blocks - base) + " internal library blocks remain after yaep_free_grammar (leak)"); return v; }
   return v;
@@ -166,6 +168,7 @@ Verdict runC12(const Case &cs) {
   for (auto &codes : cs.inputs) {
     yaep_verif.rec_limit = cs.P("reclimit", REC_LIMIT);
     ParseOpts po; po.den_limit = 200;
+    if (codes.size() > 400) po.analyse_tree = false; // the harness's tree walker recurses once per tree level: not for trees thousands of levels deep
     Outcome o = runParse(*b, codes, cf, po);
     v.parses++;
     std::string where = " [" + cf.str() + " tokens=" + std::to_string(codes.size()) + "] got " + o.str().substr(0, 400);
